@@ -460,6 +460,24 @@ def h_normalize(system):
     return fn
 
 
+def h_axes_check(rows, expect):
+    """axes_check on orthogonal axes of arbitrary (symbolic, unequal) lengths: unit vectors of the rows, or a refusal"""
+    def fn():
+        from atomman.tools import axes_check
+        S = [var(f's{i}', 0.5, 4.0) for i in range(3)]
+        A = [[S[i] * float(rows[i][j]) for j in range(3)] for i in range(3)]
+        try:
+            U = axes_check(sa(A))
+        except ValueError as e:
+            return [(f'axes {rows} scaled by positive factors: {"refused" if expect != "ok" else "accepted"} ({e})', expect != 'ok')]
+        ob = [(f'axes {rows} scaled by positive factors are {"accepted" if expect == "ok" else "refused"}', expect == 'ok')]
+        for i in range(3):
+            nrm = float(np.linalg.norm(rows[i]))
+            ob.append((f'row {i} of the result is the unit vector of row {i} of the input, whatever the lengths of the three rows', band(*[close(U[i][j] * nrm, float(rows[i][j]), 1e-9, 10.0) for j in range(3)])))
+        return ob
+    return fn
+
+
 def _chunks(l, n):
     k = max(1, math.ceil(len(l) / n))
     return [l[i:i + k] for i in range(0, len(l), k)]
@@ -497,6 +515,8 @@ def cases(tier, seed=0):
             if alias and not any(n in ALIAS for n in pair): continue
             cs.append(Case(f'isotropic_{pair[0]}_{pair[1]}{"_alias" if alias else ""}', h_isotropic(pair, alias), bind=BIND, budget_s=120, timeout_ms=30000,
                            descr=f'isotropic constructor from ({pair[0]}, {pair[1]}){" using M/lambda/mu keywords" if alias else ""}'))
+    for n_, (rows, expect) in enumerate(((([1, 1, 1], [1, -1, 0], [1, 1, -2]), 'ok'), (([1, 1, 0], [-1, 1, 0], [0, 0, 1]), 'ok'), (([1, 0, 0], [0, 0, 1], [0, 1, 0]), 'refused'), (([1, 1, 0], [0, 1, 0], [0, 0, 1]), 'refused'))):
+        cs.append(Case(f'axes_check_{n_}', h_axes_check(rows, expect), bind=BIND, budget_s=120, timeout_ms=30000, descr=f'axes_check: rows {rows} with symbolic unequal lengths ({expect})'))
     cs.append(Case('moduli', h_moduli(), bind=BIND, budget_s=170, timeout_ms=30000, descr='Voigt/Reuss/Hill bulk and shear vs defining sums'))
     for system in NSYS:
         cs.append(Case(f'normalize_{system}', h_normalize(system), bind=BIND, budget_s=170, timeout_ms=30000, descr=f'normalized_as({system}) idempotent and is_normal'))
